@@ -685,6 +685,11 @@ class Executor:
                     raise Unsupported(f'field .{p[1]} of {type(v).__name__} ({p[2]})')
             elif k == 'downcast':
                 v = cur.get(st)
+                if isinstance(v, Struct) and '__state' in v.fields:
+                    # coroutine body: a local saved across a suspension point lives at (variant, field) - rustc's remap gives
+                    # every saved local exactly one such place
+                    cur = ValLV(EnumView(v, p[1]))
+                    continue
                 if not isinstance(v, Enum):
                     raise Unsupported(f'downcast of {type(v).__name__}')
                 cur = ValLV(EnumView(v, p[1]))
